@@ -178,7 +178,86 @@ theorem C03_zsh_dq (env : Env) (v : Str) (full : Bool) :
     rw [hq]
     simpa [List.append_assoc] using hfin
 
+/-! ### inside the single quote the typed word opened
+
+Every character is literal there except the quote itself, which the replacer writes as `'\''`: close,
+escaped quote, open again.  The reader's output for that chunk is the literal quote followed by the mark
+of the re-opened quote, so the per-character lemma is stated with per-character outputs. -/
+
+theorem run_flatMap_emit {M : Type} (r : Reader M) (m : M) (esc : Char → Str) (emit : Char → List Out) (P : Char → Prop)
+    (h : ∀ c, P c → r.run m (esc c) = some (m, emit c)) :
+    ∀ v : Str, (∀ c ∈ v, P c) → r.run m (v.flatMap esc) = some (m, v.flatMap emit) := by
+  intro v
+  induction v with
+  | nil => intro _; rfl
+  | cons c v ih =>
+    intro hv
+    have hc : P c := hv c (List.mem_cons_self ..)
+    have hv' : ∀ d ∈ v, P d := fun d hd => hv d (List.mem_cons_of_mem _ hd)
+    have := Reader.run_append_of r (h c hc) (ih hv')
+    simpa [List.flatMap_cons] using this
+
+def sqEmit (c : Char) : List Out := if c = '\'' then [Out.lit '\'', Out.mark] else [Out.lit c]
+
+def zSqOk (c : Char) : Bool :=
+  (Replacer.lookup Gen.zsh_sanitizer c).isSome ||
+  decide (Z.run .sq (Replacer.escChar Gen.zsh_quotingReplacer c) = some (.sq, sqEmit c))
+
+theorem z_sq_table_ascii : asciiAll zSqOk = true := by decide
+theorem z_sq_keys : Replacer.keysAscii Gen.zsh_quotingReplacer = true := by decide
+
+theorem z_sq_table (c : Char) (h1 : Replacer.lookup Gen.zsh_sanitizer c = none) :
+    Z.run .sq (Replacer.escChar Gen.zsh_quotingReplacer c) = some (.sq, sqEmit c) := by
+  by_cases h : c.toNat < 128
+  · have := asciiAll_spec z_sq_table_ascii c h
+    simpa only [zSqOk, h1, Option.isSome_none, Bool.false_or, decide_eq_true_eq] using this
+  · rw [Replacer.escChar_nonascii _ z_sq_keys c h]
+    have hq : c ≠ '\'' := by
+      intro e; subst e; exact h (by decide)
+    simp [Reader.run, Posix.reader, Posix.step, Posix.cls, h, sqEmit, hq]
+
+theorem collect_sqEmit (v : Str) (acc : Str) : collect (v.flatMap sqEmit) (some acc) = [acc ++ v] := by
+  induction v generalizing acc with
+  | nil => simp [collect]
+  | cons c v ih =>
+    by_cases hq : c = '\''
+    · subst hq
+      simp [List.flatMap_cons, sqEmit, collect, ih, List.append_assoc]
+    · simp [List.flatMap_cons, sqEmit, hq, collect, ih, List.append_assoc]
+
+/-- **C03 (zsh, inside `'`).** The typed word opened a single quote; the inserted text closes it (QUOTING)
+    or the typed closing quote follows (FULL_QUOTING): the whole reads back as the sanitised value, quotes
+    inside the value and empty values included. -/
+theorem C03_zsh_sq (env : Env) (v : Str) (full : Bool) :
+    let st := if full then ZshState.fullQuoting else ZshState.quoting
+    Posix.readBack Posix.bash (zshOpen st ++ zshUndescribe (zshInsert env st v) ++ zshClose st) = some [san Gen.zsh_sanitizer v] := by
+  have hsan : ∀ c ∈ san Gen.zsh_sanitizer v, Replacer.lookup Gen.zsh_sanitizer c = none :=
+    fun c hc => (Replacer.mem_applyChars_sanitizer zsh_sanitizer_shape hc).2
+  have h1 : Z.run .start ['\''] = some (.sq, [Out.mark]) := by decide
+  have h2 : Z.run .sq (Replacer.applyChars Gen.zsh_quotingReplacer (san Gen.zsh_sanitizer v)) =
+      some (.sq, (san Gen.zsh_sanitizer v).flatMap sqEmit) :=
+    run_flatMap_emit Z .sq _ sqEmit (fun d => Replacer.lookup Gen.zsh_sanitizer d = none) (fun d hd => z_sq_table d hd) _ hsan
+  have h3 : Z.run .sq ['\''] = some (.mid, []) := by decide
+  have h4 := Reader.run_append_of Z h1 (Reader.run_append_of Z h2 h3)
+  have hfin : Posix.readBack Posix.bash (['\''] ++ (Replacer.applyChars Gen.zsh_quotingReplacer (san Gen.zsh_sanitizer v) ++ ['\''])) =
+      some [san Gen.zsh_sanitizer v] := by
+    simp only [Posix.readBack, readWords, h4]
+    have := collect_sqEmit (san Gen.zsh_sanitizer v) []
+    simpa [collect, Posix.final] using this
+  cases full with
+  | true =>
+    simp only [if_true, zshOpen, zshClose, zshInsert, zshUndescribe_describe_nil]
+    simpa [List.append_assoc] using hfin
+  | false =>
+    simp only [Bool.false_eq_true, if_false, zshOpen, zshClose, zshInsert]
+    have := zshUndescribe_describe (Replacer.applyChars Gen.zsh_quotingReplacer (san Gen.zsh_sanitizer v)) ['\'']
+    rw [this]
+    have hq : zshUndescribe ['\''] = ['\''] := by decide
+    rw [hq]
+    simpa [List.append_assoc] using hfin
+
 /-- non-vacuity -/
 example : san Gen.zsh_sanitizer "~/my dir/it's $x: #1".toList ≠ [] := by decide
+example : Posix.readBack Posix.bash (zshOpen .quoting ++ zshUndescribe (zshInsert {} .quoting "it's".toList) ++ zshClose .quoting) = some ["it's".toList] := by decide
 
 end Carapace.Props.C03
